@@ -36,6 +36,7 @@ package core
 //@   inline
 
 //@ func (*CommonMetricSampler).Sample
+//@   nilreceiver
 //@   ensures[C20] nil_noop: s == nil ==> nevents() == 0
 //@   ensures[C20] count: s != nil ==> ncalls("core.MetricSampleListener.AddSample") == ite(didDrop, 3, 2)
 //@   ensures[C20] drop_counted: s != nil && didDrop ==> callrecv("core.MetricSampleListener.AddSample", 0) == s.DropCounterListener && callarg("core.MetricSampleListener.AddSample", 0, 0) == 1.0
